@@ -107,3 +107,35 @@ Theorem C09_translated_make_response_is_model :
     = ok_opt (make_response srep cert_bytes path idx nonce).
 Proof. exact gen_make_response_model. Qed.
 Print Assumptions C09_translated_make_response_is_model.
+
+(* ---- Responder::send_responses, add_classic_request, add_ietf_request and reset, translated from
+   src/responder.rs on this run. `socket` is the list of datagrams handed to the network, `stats`
+   the list of recorded events, the PRNG decisions of grease and the answer of send_to for a
+   destination are inputs. Same tree afterwards, same datagrams in the same order to the same
+   destinations, same events, same decisions consumed as the model's send_responses, or both fail.
+   (nonces_ok: every queued nonce has at least 4 bytes — the debug record of the model prints 4.) ---- *)
+Require RV.Proofs.CodeServer RV.Proofs.CodeClient.
+Theorem C09_translated_send_responses_is_model :
+  forall H ed_sign cfg now r g sock st,
+  RV.Proofs.CodeServer.nonces_ok (r_requests r) -> g_fault g = fault_pct cfg ->
+  ok_opt (RV.Proofs.CodeServer.omap (fun '(t', g', s', st') => (t', g_coins g', s', st'))
+     (gen_send_responses H ed_sign now (send_fails cfg) (r_version r) (r_online_seed r) (r_cert_bytes r)
+        (r_requests r) (r_merkle r) g sock st))
+  = RV.Proofs.CodeClient.obo (ok_opt (send_responses H ed_sign cfg r now (g_coins g))) (fun '(r', bo) =>
+      Some (r_merkle r', bo_coins bo, sock ++ bo_sent bo, st ++ bo_stats bo)).
+Proof. exact RV.Proofs.CodeServer.gen_send_responses_model. Qed.
+Print Assumptions C09_translated_send_responses_is_model.
+
+Theorem C09_translated_queueing_is_model :
+  forall H r data nonce src,
+  RV.Proofs.CodeServer.omap (fun '(t, rq) => mkresp (r_version r) (r_online_seed r) (r_cert_bytes r) rq t)
+       (gen_add_ietf_request H (r_merkle r) (r_requests r) data nonce src)
+  = lift (responder_add H r data nonce src)
+  /\ RV.Proofs.CodeServer.omap (fun '(t, rq) => mkresp (r_version r) (r_online_seed r) (r_cert_bytes r) rq t)
+       (gen_add_classic_request H (r_merkle r) (r_requests r) nonce src)
+  = lift (responder_add H r nonce nonce src)
+  /\ RV.Proofs.CodeServer.omap (fun '(t, rq) => mkresp (r_version r) (r_online_seed r) (r_cert_bytes r) rq t)
+       (gen_responder_reset (r_merkle r) (r_requests r))
+  = Ok (responder_reset r).
+Proof. exact RV.Proofs.CodeServer.gen_queueing_model. Qed.
+Print Assumptions C09_translated_queueing_is_model.
